@@ -161,7 +161,7 @@ def vars_mentioned_not_selected(case):
 
 
 # ------------------------------------------------------------------------------------------------ scale
-SCALE_FLAVOURS = ["single_big", "join_big", "selfjoin_big", "triangle", "wide_join", "many_vars"]
+SCALE_FLAVOURS = ["single_big", "join_big", "selfjoin_big", "triangle", "wide_join", "many_vars", "wide_or_eq"]
 
 
 def gen_scale_case(rng, flavour=None):
@@ -194,6 +194,16 @@ def gen_scale_case(rng, flavour=None):
         world = D.random_world(rng, np_=(40, 48), nq=(3, 5), hi=6, rich=False)
         cond = ["and", cmp_("==", A(0, "a"), A(1, "a")), cmp_("==", A(1, "b"), A(2, "b")), cmp_(rng.choice(["==", "<="]), A(0, "b"), A(2, "a"))]
         return {"world": world, "kinds": ["P", "Q", "P"], "cond": cond, "sel": [0, 1, 2], "scale": flavour}
+    if flavour == "wide_or_eq":
+        # 6-8 equality alternatives over TWO variables of the same type (an IN-list per variable, written out)
+        world = D.random_world(rng, np_=(5, 8), nq=(1, 2), hi=7, rich=False)
+        k = rng.randint(3, 4)
+        f = rng.choice("ab")
+        parts = [cmp_("==", A(0, f), ["lit", v]) for v in rng.sample(range(1, 8), k)] + \
+                [cmp_("==", A(1, f), ["lit", v]) for v in rng.sample(range(1, 8), k)]
+        if rng.random() < 0.4:
+            rng.shuffle(parts)
+        return {"world": world, "kinds": ["P", "P"], "cond": ["or"] + parts, "sel": [0, 1], "scale": flavour}
     if flavour == "wide_join":
         # and_/or_ with 6-9 operands over two variables
         world = D.random_world(rng, np_=(4, 7), nq=(4, 7), hi=5, rich=False)
